@@ -517,10 +517,10 @@ pub fn c01() -> Simple {
         id: "C01",
         decided_by: "schedules (read chunking) x payload size classes",
         rule_text: "one run = handshake + 1..12 commands (QUERY/PREPARE/INIT_DB/LONG_DATA+EXECUTE) with payload lengths from the cliff classes, whole client stream up front, one seeded partition of it into read() results (1-byte, tiny, <=64, 4096, everything, cycles, explicit cuts around packet headers); the shim's callback log (callback kind + argument bytes) must equal the script exactly. Distinct = distinct plan signature (command kinds x size classes x schedule personality); non-trivial = at least one command served.",
-        quick: 200_000,
-        thorough: 6_000_000,
-        budget_q: 40,
-        budget_t: 500,
+        quick: 150_000,
+        thorough: 4_000_000,
+        budget_q: 60,
+        budget_t: 700,
         owns: &["callback-args", "callback-missing", "callback-extra", "end", "panic"],
         gen: gen_c01,
         extra: None,
